@@ -96,6 +96,7 @@ open_("F5", "C02", "a transaction that inserted and then deleted a row and is op
 open_("D6c", "C01", "DROP TABLE writes freed pages to the file before the transaction commits; a crash then makes open fail while redoing the table's logged rows", "O-open", "drop_table_before_crash", "findings/D6c-drop-table-writes-pages-before-commit.json")
 open_("F7", "C01", "recovery of rows with overflow chains (several KB of text) leaves the table unreadable (panic at storage/core/buffer.rs:570)", "O-open", "big_rows_before_crash", "findings/F7-recovery-of-rows-with-overflow-chains.json")
 open_("D6d", "C01", "deleting a row with an overflow chain writes the freed pages to the file before commit; after a crash the acknowledged row comes back corrupted", "O-durability", "big_rows_before_crash", "findings/D6d-delete-of-overflow-row-writes-pages-before-commit.json")
+open_("S1", "C01", "once cache eviction has written a dirty page back before the next checkpoint (steal), a crash makes open fail or lose acknowledged rows: logical redo runs over pages that already hold the changes", "O-open", "crash_after_stolen_page", "findings/S1-crash-after-an-evicted-dirty-page-was-written-back.json")
 open_("F6", "C08", "recovery truncates the log before the pages it redid are durable: a crash right after a recovery loses everything it recovered", "O-repeat", "crash_after_recovery_truncate", "findings/F6-recovery-truncates-log-before-redone-pages-are-durable.json")
 
 # ---- open findings: E3a (WAL) ----
